@@ -1505,6 +1505,11 @@ SDsetrange(int32 sdsid, /* IN: dataset ID */
         HGOTO_ERROR(DFE_ARGS, FAIL);
     }
 
+    /* SDend writes nothing to a file opened read-only: refuse instead of dropping the change silently */
+    if (!(handle->flags & NC_RDWR)) {
+        HGOTO_ERROR(DFE_DENIED, FAIL);
+    }
+
     /* move data values over */
     if (FAIL == (sz = DFKNTsize(var->HDFtype | DFNT_NATIVE))) {
         HGOTO_ERROR(DFE_ARGS, FAIL);
@@ -1663,6 +1668,11 @@ SDsetattr(int32       id,    /* IN: object ID */
     /* still no handle ? */
     if (handle == NULL) {
         HGOTO_ERROR(DFE_ARGS, FAIL);
+    }
+
+    /* SDend writes nothing to a file opened read-only: refuse instead of dropping the change silently */
+    if (!(handle->flags & NC_RDWR)) {
+        HGOTO_ERROR(DFE_DENIED, FAIL);
     }
 
     /* hand over to SDIputattr */
@@ -2016,6 +2026,11 @@ SDsetdatastrs(int32       sdsid, /* IN: dataset ID */
         HGOTO_ERROR(DFE_ARGS, FAIL);
     }
 
+    /* SDend writes nothing to a file opened read-only: refuse instead of dropping the change silently */
+    if (!(handle->flags & NC_RDWR)) {
+        HGOTO_ERROR(DFE_DENIED, FAIL);
+    }
+
     if (l && l[0] != '\0') {
         if (SDIputattr(&var->attrs, _HDF_LongName, DFNT_CHAR, (int)strlen(l), l) == FAIL) {
             HGOTO_ERROR(DFE_CANTSETATTR, FAIL);
@@ -2088,6 +2103,11 @@ SDsetcal(int32   sdsid, /* IN: dataset ID */
         HGOTO_ERROR(DFE_ARGS, FAIL);
     }
 
+    /* SDend writes nothing to a file opened read-only: refuse instead of dropping the change silently */
+    if (!(handle->flags & NC_RDWR)) {
+        HGOTO_ERROR(DFE_DENIED, FAIL);
+    }
+
     if (SDIputattr(&var->attrs, _HDF_ScaleFactor, DFNT_FLOAT64, (int)1, &cal) == FAIL) {
         HGOTO_ERROR(DFE_CANTSETATTR, FAIL);
     }
@@ -2150,6 +2170,11 @@ SDsetfillvalue(int32 sdsid, /* IN: dataset ID */
     var = SDIget_var(handle, sdsid);
     if (var == NULL) {
         HGOTO_ERROR(DFE_ARGS, FAIL);
+    }
+
+    /* SDend writes nothing to a file opened read-only: refuse instead of dropping the change silently */
+    if (!(handle->flags & NC_RDWR)) {
+        HGOTO_ERROR(DFE_DENIED, FAIL);
     }
 
     if (SDIputattr(&var->attrs, _FillValue, var->HDFtype, (int)1, val) == FAIL) {
@@ -2555,6 +2580,11 @@ SDsetdimstrs(int32       id, /* IN: dimension ID */
         HGOTO_ERROR(DFE_ARGS, FAIL);
     }
 
+    /* SDend writes nothing to a file opened read-only: refuse instead of dropping the change silently */
+    if (!(handle->flags & NC_RDWR)) {
+        HGOTO_ERROR(DFE_DENIED, FAIL);
+    }
+
     /* look for a variable with the same name */
     varid = (int)SDIgetcoordvar(handle, dim, (int32)(id & 0xffff), (int32)0);
     if (varid == FAIL) {
@@ -2680,6 +2710,11 @@ SDsetdimscale(int32 id,    /* IN: dimension ID */
     dim = SDIget_dim(handle, id);
     if (dim == NULL) {
         HGOTO_ERROR(DFE_ARGS, FAIL);
+    }
+
+    /* SDend writes nothing to a file opened read-only: refuse instead of dropping the change silently */
+    if (!(handle->flags & NC_RDWR)) {
+        HGOTO_ERROR(DFE_DENIED, FAIL);
     }
 
     /* sanity check, if not SD_UNLIMITED */
